@@ -27,7 +27,7 @@ PLAN = {
     'C01': {'gated': (['basic', 'ctl', 'cancel', 'pool', 'batch', 'barrier', ('tune', 2), 'reject'], 80, 900), 'free': (['basic', 'ctl', 'pool'], 64, 1200), 'model': ['MC_core']},
     'C02': {'gated': (['ctl', 'pool', 'basic', 'barrier', 'bind2', 'tune'], 84, 800), 'free': (['ctl', 'pool'], 64, 1200), 'model': ['MC_core']},
     'C03': {'gated': (['basic', 'ctl', 'cancel', 'pool', 'barrier', 'batch', ('tune', 4), 'stop2'], 88, 1000), 'free': (['basic', 'ctl', 'pool', 'cancel', 'storm'], 80, 1500), 'model': ['MC_core']},
-    'C05': {'gated': (['handle', 'basic', 'cancel', 'batch'], 64, 750), 'free': (['handle', 'batch'], 64, 1200), 'model': ['MC_core']},
+    'C05': {'gated': (['handle', 'basic', 'cancel', 'batch', 'reject'], 72, 800), 'free': (['handle', 'batch'], 64, 1200), 'model': ['MC_core']},
     'C06': {'gated': (['barrier', 'ctl', 'cancel', 'stop2'], 72, 800), 'free': (['barrier', 'ctl'], 64, 1200), 'model': ['MC_core']},
     'C07': {'gated': (['handle', 'basic', 'batch'], 64, 750), 'free': (['handle', 'batch', 'storm'], 72, 1500), 'model': []},
     'C08': {'gated': ([('batch', 5), 'reject'], 168, 1600), 'free': ([('batch', 3), 'storm'], 96, 2400), 'model': []},
